@@ -30,7 +30,13 @@ impl Engine {
         for _ in 0..10_000 {
             match self.ch.query::<IBCQueueResponse>(QueryMsg::IbcQueue { start_after: cursor, limit: Some(50) }) {
                 Ok(q) if !q.ibc_queue.is_empty() => {
-                    cursor = q.ibc_queue.last().map(|p| p.sequence);
+                    let next = q.ibc_queue.last().map(|p| p.sequence);
+                    if cursor.is_some() && next <= cursor {
+                        // the cursor does not advance (a broken pager): stop, the comparison below reports it
+                        out.extend(q.ibc_queue.iter().map(|p| (p.sequence, p.receiver.clone(), p.amount.denom.clone(), p.amount.amount.u128(), status_of(&p.status))));
+                        break;
+                    }
+                    cursor = next;
                     out.extend(q.ibc_queue.iter().map(|p| (p.sequence, p.receiver.clone(), p.amount.denom.clone(), p.amount.amount.u128(), status_of(&p.status))));
                 }
                 _ => break,
@@ -48,8 +54,13 @@ impl Engine {
             if page.batches.is_empty() {
                 break;
             }
-            cursor = page.batches.last().map(|b| b.id);
+            let next = page.batches.last().map(|b| b.id);
+            let stuck = cursor.is_some() && next <= cursor;
+            cursor = next;
             out.extend(page.batches);
+            if stuck {
+                break;
+            }
         }
         Ok(out)
     }
